@@ -1,6 +1,7 @@
 package props
 
 import (
+	"fmt"
 	"strings"
 
 	"verifharness/core"
@@ -23,7 +24,72 @@ func (c08) Assumptions() []string {
 func (c08) NumCases(tier string) int      { return tierN(tier, 3000, 200000) }
 func (c08) MinNontrivial(tier string) int { return tierN(tier, 500, 5000) }
 
+// sameFieldNames: two points of one holder whose struct fields carry the same name (they live in two embedded structs),
+// each with a qualifier of its own: each is narrowed by its own qualifier.
+func (p c08) sameFieldNames(c *core.Ctx) {
+	g := world.NewG(c.Rng)
+	types := []int{0, 1, 3, 12, 25}
+	var replicas, primaries []int
+	for x, n := 0, 1+c.Rng.Intn(2); x < n; x++ {
+		k := g.AddNode(types[c.Rng.Intn(len(types))], g.FreshName(len(g.Sc.Nodes)))
+		g.Sc.Nodes[k].Qual = "replica"
+		replicas = append(replicas, k)
+	}
+	for x, n := 0, 1+c.Rng.Intn(2); x < n; x++ {
+		k := g.AddNode(types[c.Rng.Intn(len(types))], g.FreshName(len(g.Sc.Nodes)))
+		g.Sc.Nodes[k].Qual = "primary"
+		primaries = append(primaries, k)
+	}
+	for x, n := 0, c.Rng.Intn(3); x < n; x++ {
+		k := g.AddNode(types[c.Rng.Intn(len(types))], g.FreshName(len(g.Sc.Nodes)))
+		g.Sc.Nodes[k].Qual = "other"
+	}
+	g.ShuffleOrders()
+	h := &world.TwoStores{}
+	r := world.Start(g.Sc, world.Options{Extra: []any{h}})
+	c.Count("starts", 1)
+	c.Count("same_field_name_starts", 1)
+	detail := failDetail(g.Sc, r, nil)
+	if r.Outcome() != "ok" {
+		c.Fail("", "holder with equally named points in two embedded structs: "+core.Short(r.OutcomeDetail(), 300), detail)
+		return
+	}
+	qualOf := func(o any) string {
+		for i, nd := range r.Nodes {
+			if any(nd) == o {
+				return g.Sc.Nodes[i].Qual
+			}
+		}
+		return "?"
+	}
+	check := func(where, want string, single world.IA, all []world.IA, n int) bool {
+		if single == nil || qualOf(any(single)) != want {
+			c.Fail("", fmt.Sprintf("%s.Store `wire:\",qualifier=%s\"` holds a component with qualifier %q", where, want, qualOf(any(single))), detail)
+			return false
+		}
+		if len(all) != n {
+			c.Fail("", fmt.Sprintf("%s.All `wire:\",qualifier=%s\"` holds %d components, %d declare that qualifier", where, want, len(all), n), detail)
+			return false
+		}
+		for _, o := range all {
+			if qualOf(any(o)) != want {
+				c.Fail("", fmt.Sprintf("%s.All `wire:\",qualifier=%s\"` holds a component with qualifier %q", where, want, qualOf(any(o))), detail)
+				return false
+			}
+		}
+		return true
+	}
+	if !check("ReadDeps", "replica", h.ReadDeps.Store, h.ReadDeps.All, len(replicas)) || !check("WriteDeps", "primary", h.WriteDeps.Store, h.WriteDeps.All, len(primaries)) {
+		return
+	}
+	c.Nontrivial("samefieldnames|" + g.Sc.GraphSig())
+}
+
 func (p c08) Run(c *core.Ctx) {
+	if c.Index%20 == 8 {
+		p.sameFieldNames(c)
+		return
+	}
 	g := RandomPopulation(c.Rng, PopOpts{MinP: 4, MaxP: 20, Types: world.TypesAll, PUnnamed: 0.35})
 	mix := TagMix{ByType: 3, ByName: 0.5, ByNameAbsent: 0.8, Func: 0.3, PQualifier: 0.55, POptional: 0.5}
 	if c.Rng.Intn(3) == 0 {
